@@ -2171,6 +2171,30 @@ def c16_build(ctx):
             cases.append(mk("media", "\n".join(l2), group="cut-full", meta={"cut": gid2, "at": None}))
             for i in range(1, len(l2)):
                 cases.append(mk("media", "\n".join(l2[:i]) + "\n", group="cut-inside-item", meta={"cut": gid2, "at": i, "last": l2[i - 1].strip(), "open": c16_open(l2[:i])}))
+    # a tag that RESTATES what is already in effect (the same key again, the same map again, NONE twice) opens an item like any
+    # other segment tag: every cut of texts where each such tag stands a second time - directly behind its first occurrence, behind
+    # a complete segment, and as the last line
+    K = ['#EXT-X-KEY:METHOD=AES-128,URI="k"', '#EXT-X-KEY:METHOD=SAMPLE-AES,URI="k",KEYFORMAT="f",IV=0x00000000000000000000000000000001', "#EXT-X-KEY:METHOD=NONE",
+         '#EXT-X-MAP:URI="i"', '#EXT-X-MAP:URI="i",BYTERANGE="5@0"', "#EXT-X-DISCONTINUITY", "#EXT-X-PROGRAM-DATE-TIME:2010-02-19T14:54:23.031+08:00",
+         '#EXT-X-DATERANGE:ID="d",START-DATE="2010-02-19T14:54:23.031+08:00"', "#EXT-X-BYTERANGE:5@0"]
+    ri = 0
+    for t1 in K:
+        for shape in (["H", "T", "T", "S", "T"], ["H", "T", "S", "T", "S", "T"], ["H", "O", "T", "S", "O", "T", "T", "S"], ["H", "T", "S", "S", "T"]):
+            for other in ('#EXT-X-KEY:METHOD=AES-128,URI="o",KEYFORMAT="g"', "#EXT-X-DISCONTINUITY"):
+                if "O" not in shape and other != "#EXT-X-DISCONTINUITY":
+                    continue
+                ls, ns = [], 0
+                for x in shape:
+                    if x == "H": ls += ["#EXTM3U", "#EXT-X-TARGETDURATION:10"]
+                    elif x == "T": ls.append(t1)
+                    elif x == "O": ls.append(other)
+                    else:
+                        ls += ["#EXTINF:1,", "s%d" % ns]; ns += 1
+                ri += 1
+                gid = "rest%d" % ri
+                cases.append(mk("media", "\n".join(ls) + "\n", group="cut-full", meta={"cut": gid, "at": None}))
+                for i in range(1, len(ls)):
+                    cases.append(mk("media", "\n".join(ls[:i]) + "\n", group="cut-behind-restated-tag", meta={"cut": gid, "at": i, "last": ls[i - 1].strip(), "open": c16_open(ls[:i])}))
     # master playlists cut after a STREAM-INF
     for pi in range(ctx.n(100, 1000)):
         text = G.gen_master(rng, features=ctx.features)[0]
@@ -2305,6 +2329,55 @@ DEFECT_WITNESSES = [
     ("media", "#EXTM3U\n#EXT-X-TARGETDURATION:10\n#EXT-X-MEDIA-SEQUENCE:18446744073709551615\n#EXTINF:1,\na\n#EXTINF:1,\nb\n"),
     ("unquote", '"'), ("attrs", '="'), ("attrs", "é="), ("attrs", "=,"), ("attrs", "a"),
 ]
+
+
+def dress_value(v):
+    """spellings next to a value as written: in / out of quotes, stray quotes, other case, signs, leading zeros, a fraction, blanks,
+    separators a number parser might swallow - whatever the attribute's type. The model decides what each means."""
+    bare = v[1:-1] if len(v) >= 2 and v[0] == '"' and v[-1] == '"' else v
+    out = [bare, '"%s"' % bare, '"' + bare, bare + '"', bare[:1] + '"' + bare[1:], "'%s'" % bare, '""%s""' % bare, '"%s""' % bare,
+           bare.lower(), bare.upper(), bare.title(), bare + bare, bare[:-1], "", '""', '" %s"' % bare, '"%s "' % bare]
+    if re.fullmatch(r"-?[0-9][0-9.x@/]*", bare):
+        out += ["+" + bare, "-" + bare, "0" + bare, "00" + bare, bare + ".0", bare + ".", "." + bare, bare + "e0", bare + "E1", "0x" + bare, bare + "_0", "1_" + bare,
+                bare.replace("x", "X"), bare.replace("@", "@+"), bare.replace("@", "@0"), bare.replace("/", "//"), bare + "/", bare + "@", bare + "x",
+                "\u0661" + bare[1:], "\uff11" + bare[1:], bare + "\u00a0"]
+        if bare != v:
+            out += ['"%s"' % y for y in out[17:]]
+    res, seen = [], {v}
+    for x in out:
+        if x not in seen and "\n" not in x:
+            seen.add(x); res.append(x)
+    return res
+
+
+def dressed_value_cases():
+    """every attribute value (and the value of every one-value tag) of one representative line per tag, in each spelling of
+    `dress_value`: (op, text)"""
+    lines = [(n, t) for n, ts in TAG_SEEDS.items() for t in ts]
+    lines += [("ExtXKey", '#EXT-X-KEY:METHOD=SAMPLE-AES,URI="k",KEYFORMAT="f",KEYFORMATVERSIONS="1/2"'), ("ExtXSessionData", '#EXT-X-SESSION-DATA:DATA-ID="d",URI="u"'),
+              ("ExtXMedia", '#EXT-X-MEDIA:TYPE=SUBTITLES,URI="u",GROUP-ID="g",NAME="n",FORCED=YES,AUTOSELECT=YES'),
+              ("VariantStream", '#EXT-X-STREAM-INF:BANDWIDTH=2,AVERAGE-BANDWIDTH=1,HDCP-LEVEL=TYPE-0,VIDEO="v"\nuri'),
+              ("VariantStream", '#EXT-X-I-FRAME-STREAM-INF:BANDWIDTH=2,AVERAGE-BANDWIDTH=1,URI="u",RESOLUTION=1x2,CODECS="x",HDCP-LEVEL=NONE,VIDEO="v"')]
+    out = []
+    for name, line in lines:
+        first, _, rest = line.partition("\n")
+        head, _, body = first.partition(":")
+        tail = ("\n" + rest) if rest else ""
+        pairs = c12_split_attrs(body) if "=" in body else None
+        if pairs is None or name in ("ExtInf", "ExtXProgramDateTime"):
+            for x in dress_value(body.split(",")[0]):
+                out.append(("tag:" + name, head + ":" + x + ("," + body.split(",", 1)[1] if "," in body else "") + tail))
+            continue
+        for i, (k, v) in enumerate(pairs):
+            for x in dress_value(v):
+                q = pairs[:i] + [(k, x)] + pairs[i + 1:]
+                out.append(("tag:" + name, head + ":" + ",".join("%s=%s" % kv for kv in q) + tail))
+    hdr = {"#EXT-X-TARGETDURATION": "10", "#EXT-X-MEDIA-SEQUENCE": "5", "#EXT-X-DISCONTINUITY-SEQUENCE": "2", "#EXT-X-VERSION": "3", "#EXT-X-PLAYLIST-TYPE": "VOD"}
+    for tag, v in hdr.items():
+        for x in dress_value(v):
+            base = ["#EXTM3U"] + (["#EXT-X-TARGETDURATION:10"] if tag != "#EXT-X-TARGETDURATION" else []) + [tag + ":" + x, "#EXTINF:1,", "s"]
+            out.append(("media", "\n".join(base) + "\n"))
+    return out
 
 
 def c05_long_values(rng, rounds):
@@ -2992,6 +3065,9 @@ def c14_build(ctx):
                     cases.append(mk("media", "#EXTM3U\n#EXT-X-TARGETDURATION:10\n" + text + "\n#EXTINF:1,\ns\n", group="enumerated-value-dressed", meta={"exp": x == v}))
                 elif op != "tag:ExtXMap":
                     cases.append(mk("master", "#EXTM3U\n" + text + "\n", group="enumerated-value-dressed", meta={"exp": x == v}))
+    # every value of every attribute in every neighbouring spelling: acceptance has to be the model's (no separate expectation)
+    for op, text in dressed_value_cases():
+        cases.append(mk(op, text, group="dressed-values"))
     # keys
     ivs = [None, "0x000102030405060708090a0b0c0d0e0f", "0X000102030405060708090A0B0C0D0E0F", "000102030405060708090a0b0c0d0e0f", "0x0001", "0x000102030405060708090a0b0c0d0e0g",
            # 32 characters behind the prefix that a number parser would swallow but that are not 32 hex digits
@@ -3072,6 +3148,8 @@ def c14_oracle(ctx, cases, impl, model):
             fails.append(dict(describe(c.line, a), what="panicked", law="no-panic")); continue
         if st == "bad-op":
             fails.append(dict(describe(c.line, a), what="harness rejected a generated script", law="harness")); continue
+        if "exp" not in c.meta:
+            continue
         exp = c.meta["exp"]
         if exp != (st == "ok"):
             fails.append(dict(describe(c.line, a), what="%s: attribute rules say %s, implementation %s" % (c.group, "accept" if exp else "reject", st), law="rules",
@@ -3127,6 +3205,8 @@ def c18_build(ctx):
         cases.append(mk("type:KeyFormatVersions", '"' + "/".join(str(rng.choice([0, 1, 2, 5, 255, rng.randint(0, 255)])) for _ in range(k)) + '"', group="versions", meta={"domain": True}))
         cases.append(mk("type:InitializationVector", rng.choice(["0x", "0X"]) + "".join(rng.choice("0123456789abcdefABCDEF") for _ in range(32)), group="iv", meta={"domain": True}))
         cases.append(mk("type:Codecs", ",".join(rng.choice(["avc1.4d401e", "mp4a.40.2", "x y", "日本", "a=b"]) for _ in range(rng.randint(1, 4))), group="codecs", meta={"domain": True}))
+    for op, text in dressed_value_cases():
+        cases.append(mk(op, text, group="dressed-values", meta={"domain": False}))
     for t in [",a", "a,", "a,,b", ",", ",,", ",,a", ",a,", "a,b,", " ,a", ", "]:
         cases.append(mk("type:Codecs", t, group="codecs-empty-entries", meta={"domain": True}))
         cases.append(mk("tag:VariantStream", '#EXT-X-STREAM-INF:BANDWIDTH=1,CODECS="%s"\nu' % t, group="codecs-empty-entries", meta={"domain": True}))
@@ -4125,6 +4205,36 @@ def c12_build(ctx):
             cases.append(mk(op, c12_variant(rng, lines, op == "media", ops), group="composition", meta={"base": gid, "role": "variant", "ops": sorted(ops)}))
         t2, tags = c12_insert_unknown(rng, lines)
         cases.append(mk(op, t2, group="unknown-tags", meta={"base": gid, "role": "unknown", "tags": tags}))
+    # unknown attributes, systematically: next to every attribute of one representative line per tag, a NEAR MISS of its name
+    # (prefix, suffix, other case, a letter less) carrying that attribute's own value or a keyword, in first and in last place
+    wrap = {"ExtXKey": ("media", "#EXTM3U\n#EXT-X-TARGETDURATION:10\n%s\n#EXTINF:1,\ns\n#EXTINF:1,\nt\n"), "ExtXMap": ("media", "#EXTM3U\n#EXT-X-TARGETDURATION:10\n%s\n#EXTINF:1,\ns\n"),
+            "ExtXDateRange": ("media", "#EXTM3U\n#EXT-X-TARGETDURATION:10\n%s\n#EXTINF:1,\ns\n"), "ExtXStart": ("media", "#EXTM3U\n#EXT-X-TARGETDURATION:10\n%s\n#EXTINF:1,\ns\n"),
+            "ExtXMedia": ("master", "#EXTM3U\n%s\n"), "ExtXSessionData": ("master", "#EXTM3U\n%s\n"), "ExtXSessionKey": ("master", "#EXTM3U\n%s\n"), "VariantStream": ("master", "#EXTM3U\n%s\n")}
+    seeds = [(n, t) for n, ts in TAG_SEEDS.items() for t in ts if n in wrap]
+    seeds += [("ExtXKey", '#EXT-X-KEY:METHOD=SAMPLE-AES,URI="k",KEYFORMAT="f",KEYFORMATVERSIONS="1/2"'), ("ExtXSessionData", '#EXT-X-SESSION-DATA:DATA-ID="d",URI="u"'),
+              ("ExtXMedia", '#EXT-X-MEDIA:TYPE=SUBTITLES,URI="u",GROUP-ID="g",NAME="n",FORCED=YES,AUTOSELECT=YES'),
+              ("ExtXStart", "#EXT-X-START:TIME-OFFSET=1"), ("ExtXKey", '#EXT-X-KEY:METHOD=AES-128,URI="k"'),
+              ("VariantStream", '#EXT-X-STREAM-INF:BANDWIDTH=2,AVERAGE-BANDWIDTH=1,HDCP-LEVEL=TYPE-0,VIDEO="v"\nuri')]
+    for name, line in seeds:
+        op, frame = wrap[name]
+        first, _, rest = line.partition("\n")
+        head, _, body = first.partition(":")
+        pairs = c12_split_attrs(body)
+        if pairs is None:
+            continue
+        bi += 1
+        gid = "b%d" % bi
+        cases.append(mk(op, frame % line, group="base-tag", meta={"base": gid, "role": "base"}))
+        for k, v in pairs:
+            forms = [k + "X", "MY-" + k, "Y" + k, k.lower(), k.title(), k + "S", k[:-1] if len(k) > 2 else k + "Q"] + ([] if name == "ExtXDateRange" else ["X-" + k, "X" + k])
+            for nm in forms:
+                if nm in G.ALL_ATTR_NAMES or (name == "ExtXDateRange" and nm.upper().startswith("X-")):
+                    continue
+                for val in dict.fromkeys([v, "NONE", "YES", "NO", '""', "0"]):
+                    for place in ("first", "last"):
+                        q = [(nm, val)] + pairs if place == "first" else pairs + [(nm, val)]
+                        l2 = head + ":" + ",".join("%s=%s" % kv for kv in q) + (("\n" + rest) if rest else "")
+                        cases.append(mk(op, frame % l2, group="unknown-attr-systematic", meta={"base": gid, "role": "variant", "ops": ["unknown-attr:%s=%s %s" % (nm, val, place)]}))
     return cases
 
 
